@@ -70,6 +70,18 @@ CHECKS.update({
                 design='4.14'),
 })
 
+CHECKS.update({
+    'C10': dict(level='other', technique='collection typestate analysis (sorted / duplicate-free / single empty representation) over MIR paths, error-atomicity path rule, shape-domain check of every inserted value, abstract-effect comparison per mutator',
+                text='Decides the structural necessary conditions the set/map model equivalence rests on, on every path of every &mut self method, constructor and validating getter: invariant fields '
+                     '(variants, attributes, private tags) are left sorted / duplicate-free / None-when-empty at every exit; binary searches only on sorted fields; no write to self precedes an Err return; '
+                     'every inserted key, value, attribute or tag is the argument validated against the exact production and normalised as the parser does; rejected arguments lie outside the production; '
+                     'each public mutator has the abstract effect (insert one, remove one at the found position, clear, map insert/remove, assign) of the model operation. It does not decide step-by-step '
+                     'agreement of concrete histories with a reference model.',
+                note='Breaking any of these breaks the behaviour on some history (necessary conditions); their conjunction is argued, not proven, to imply the model equivalence. Trusted: std Vec/BTreeMap/slice contracts. '
+                     'Exempt: from_raw_parts_unchecked constructors (documented caller contract).',
+                design='4.10'),
+})
+
 NOT_YET = {}
 
 
